@@ -269,10 +269,11 @@ namespace {
                 os.emplace_back([i, op] { submit_op(i, op); });
         }
         for (auto& t : os) t.join();
+        while (g_records < g_expected_records) main_pause(3000000);
         sim_quiesce(3000000);
         pika::wait();
         // std_thread_scheduler work is outside the runtime: wait for it
-        while (g_records < g_expected_records) main_pause();
+        while (g_records < g_expected_records) main_pause(3000000);
         VH_CHECK(g_records == g_expected_records, "C10.lost_work", "%d of %d callables ran", g_records, g_expected_records);
         focus_report();
         pk::stop();
